@@ -135,6 +135,7 @@ def call_public(ctx, I, dotted, *args, **kw):
     saved = _copy_args(args), _copy_args(kw)
     g0 = len(I.guards)
     t0_ = len(I.trace)
+    u0_ = len(I.unsupported_log)
     try:
         out = I.call(f, tuple(args), kw)
         arg_ids = {id(a) for a in list(args) + list(kw.values()) if isinstance(a, np.ndarray)}
@@ -162,6 +163,13 @@ def call_public(ctx, I, dotted, *args, **kw):
         return out
     except RaiseSig as r:
         node = r.exc.node
+        if r.exc.typename in ("IndexError", "TypeError", "AttributeError", "KeyError") and len(I.unsupported_log) > u0_:
+            # an error of the kind that follows from a value the interpreter could not model (an unmodelled library call earlier in this very
+            # call): not evidence about the program
+            ctx.ob("generic-path-raises", dotted, "inconclusive",
+                   f"{dotted} raises {r.exc.typename} at line {getattr(node, 'lineno', '?')} after unmodelled operations {[u[0] for u in I.unsupported_log[u0_:u0_ + 3]]}",
+                   defloc(ctx, dotted))
+            raise Abort()
         ctx.ob("generic-path-raises", dotted, False,
                f"{dotted} raises {r.exc.typename} on generic symbolic input (raise site line {getattr(node, 'lineno', '?')})",
                defloc(ctx, dotted))
